@@ -534,6 +534,16 @@ func run(c *core.Ctx) error {
 	if _, ok := c.ModelCheck("ScorchDisk", mcfg, core.Workers(8), core.Timeout(25*time.Minute), core.Heap(8000)); !ok {
 		return nil
 	}
+	// the process dies at any instant and the index is opened again (ScorchDisk!Restart, KeepN = 2):
+	// all invariants continue to hold in the second life; the design that starts new segment
+	// ids beyond the ids of the recovered root (instead of beyond every file number in the
+	// directory) is refuted - it hands out the name of a file an older snapshot still holds
+	if _, ok := c.ModelCheck("ScorchDisk", "ScorchDisk_mc_restart.cfg", core.Workers(8), core.Timeout(25*time.Minute), core.Heap(8000)); !ok {
+		return nil
+	}
+	if _, ok := c.ModelRefutes("ScorchDisk", "ScorchDisk_mc_restart_sidfromroot.cfg", "NewNamesUnused", core.Workers(8), core.Timeout(25*time.Minute), core.Heap(8000)); !ok {
+		return nil
+	}
 
 	// 2. fault enumeration on the real code
 	var specs []runSpec
